@@ -32,7 +32,7 @@ ASSUMPTIONS = [
 ]
 FLOORS = {'evaluate_outcomes': 2000, 'pairs_seen': 144,
           'reassigned_evaluations': 300, 'two_sheet_evaluations': 300,
-          'decimal_residue_cases': 100, 'postfix_percent_cases': 30, 'big_power_cases': 12,
+          'decimal_residue_cases': 100, 'postfix_percent_cases': 30, 'big_power_cases': 12, 'error_operand_cases': 300,
           'rendering_groups': 500}
 ANCHOR_FUNCS = {
     'xlcalculator/parser.py': ['FormulaParser.shunting_yard',
@@ -603,6 +603,29 @@ def run(ctx):
                           'observed': got, 'reference': want},
                          monitor='value-vs-reference',
                          group='big-power:' + text[:6])
+
+    # ---- division by zero inside one operand: #DIV/0! is the result whatever
+    # the other operand is (zero factors, zero exponents, empty texts ...) -----
+    if sh in (6, 7) or thorough:
+        zc = cellref(0)             # A1 = 0
+        nc = cellref(1)             # B1 = 3
+        asg = (0, 3, 0, 1, 1, 1)
+        ZERO = ('lit', 0, '0')
+        neutral = [ZERO, zc, ('par', ('bin', '-', nc, nc)), ('lit', 1, '1'),
+                   nc]
+        failing = [('par', ('bin', '/', ('lit', 1, '1'), ZERO)),
+                   ('par', ('bin', '/', nc, zc)),
+                   ('par', ('par', ('bin', '/', nc, cellref(2))))]
+        for op in OPS:
+            for other in neutral:
+                for bad_ in failing:
+                    R.add(('bin', op, other, bad_), asg, 'error-operand',
+                          [('minimal', False)])
+                    R.add(('bin', op, bad_, other), asg, 'error-operand',
+                          [('minimal', False)])
+                    ctx.event('error_operand_cases', 2)
+            R.add(('bin', '+', nc, ('bin', op, zc, failing[1])), asg,
+                  'error-operand', [('minimal', False)])
 
     # ---- sampled trees ------------------------------------------------------
     def leaves(r):
